@@ -280,6 +280,15 @@ GroupClauses(ev, E) ==
               (grp.fo /\ ~E.fo) =>
                  \A h \in Hosts : \A c \in NZCols(E.obs[h]) : E.obs[h][c] = grp.obs[h][c]>> >>
 
+\* C13 (purity): generative_step on a state that is NOT the environment's current one answers for the state it
+\* was given - outcome, value and next state are the reference semantics' function of that state, the action
+\* and the draw, whatever the environment itself went through before
+ForeignClauses(ev, E, x) ==
+    IF ev.ev = "genstep" /\ Len(ev.pre_rows) > 0
+    THEN << <<"C13", "foreign_state_result_depends_on_argument_only",
+              E.post = x.st /\ E.res.success = x.success /\ E.res.value = x.value>> >>
+    ELSE <<>>
+
 StepEv ==
     /\ l <= N /\ Ev.ev \in {"step", "genstep"} /\ ~Malformed(Ev)
     /\ LET ev == Ev  e == ev.env
@@ -295,7 +304,8 @@ StepEv ==
            x == Trans(preSt, a, E.luck)
            failed == Failed(StepClauses(E) \o RawClauses(ev, preRows, postRows)
                             \o HistClauses(ev, E) \o PairClauses(ev, E)
-                            \o GroupClauses(ev, E) \o Drift(E))
+                            \o GroupClauses(ev, E) \o ForeignClauses(ev, E, x) \o Drift(E)
+                            \o << <<"DRIFT", "caller_action_array_unchanged", ~ev.arg_modified>> >>)
                      \cup (IF okPre /\ okPost THEN {} ELSE {<<"C09", "status_columns_wellformed">>})
        IN
        /\ Report(failed, ev.i)
